@@ -124,6 +124,10 @@ func runCheck(prop, tier, repo, overlayFile, only string, writeEvidence, keep, v
 				return 2
 			}
 			overlay[k] = b
+			if eng.overlayFiles == nil {
+				eng.overlayFiles = map[string]string{}
+			}
+			eng.overlayFiles[k] = v
 		}
 	}
 	if err := eng.load(repo, pc.Load, overlay); err != nil {
